@@ -318,6 +318,7 @@ def run(rep, tier, seed):
     alias_pass(rep, rng, quick)
     nesting_and_names_pass(rep, rng, quick)
     query_pass(rep, rng, quick)
+    shadow_rename_pass(rep, rng, quick)
     rep.sample({"original": groups[0][1][:700], "rewritten": groups[0][2][2][1][:900], "renaming": dict(list(groups[0][2][2][2].items())[:8])})
     rep.rule = ("generated models (30% with an injected semantic error) re-rendered with redundant parentheses around "
                 "operands, blanks / newlines / comments / line continuations between tokens and the other spelling of "
@@ -399,6 +400,64 @@ def nesting_and_names_pass(rep, rng, quick):
             d = deepdiff.first_diff(oa["doc"], ob["doc"])
             if d:
                 rep.violation("C09:whitespace-in-name:document-differs", "at %s: %r vs %r" % (d[0], d[1], d[2]), c)
+
+
+def shadow_rename_pass(rep, rng, quick):
+    """Renaming of ONE inner-scope entity whose chosen name coincides with a name declared in an enclosing scope (a
+    typedef, a struct typedef, a global variable, a function): the model in which the inner entity carries the outer
+    name and the model in which it carries a fresh name must agree on exceptions, diagnostics, supported methods and the
+    document (fresh name mapped back).  The shadowed outer kinds include type names, whose lexing depends on scope."""
+    from .. import xmlgen
+    outers = [("typedef-range", "typedef int[0,3] %s;"), ("typedef-struct", "typedef struct { int a; int b; } %s;"),
+              ("typedef-scalar", "typedef scalar[3] %s;"), ("global-int", "int %s = 1;"), ("global-array", "int %s[2];"),
+              ("function", "int %s(int q) { return q; }"), ("const", "const int %s = 2;")]
+    inners = [
+        ("function-local", dict(decl="int g; void f(int n) { int @N@ = n; @N@ = @N@ + 1; g = @N@; }")),
+        ("function-local-array", dict(decl="int g; void f(int n) { int @N@[2]; @N@[0] = n; g = @N@[0] + @N@[1]; }")),
+        ("function-parameter", dict(decl="int g; int f(int @N@) { g = @N@; return @N@ + 1; }")),
+        ("function-ref-parameter", dict(decl="int g; void f(int &@N@) { @N@ = @N@ + 1; } void h() { f(g); }")),
+        ("block-local", dict(decl="int g; void f(int n) { if (n > 0) { int @N@ = n; g = @N@ * 2; } g = g + 1; }")),
+        ("template-local", dict(decl="int g;", tdecl="int @N@ = 0;", edges=[("id0", "id0", [("guard", "@N@ < 3"), ("assignment", "@N@ = @N@ + 1, g = @N@")])])),
+        ("template-parameter", dict(decl="int g;", params="const int @N@", edges=[("id0", "id0", [("guard", "@N@ < 3"), ("assignment", "g = @N@")])],
+                                   system="Q = P(1); system Q;")),
+        ("template-local-clock", dict(decl="int g;", tdecl="clock @N@;", locations=[("id0", "L0", [("invariant", "@N@ <= 5")], None)],
+                                     edges=[("id0", "id0", [("guard", "@N@ >= 1"), ("assignment", "@N@ = 0")])])),
+    ]
+    names = ["id_t", "T", "rec", "x1", "Node", "v_t"]
+    cases = []
+    for oname, otext in outers:
+        for iname, kw in inners:
+            if oname.startswith("typedef") and "parameter" in iname:
+                continue     # the grammar's parameter rule takes a NonTypeId: a parameter cannot carry a visible type name
+            for rep_i in range(1 if quick else 4):
+                nm = rng.choice(names)
+                fresh = "zq%d" % rng.randrange(1000)
+                def mk(n):
+                    k = {a: ([(x[0], x[1], [(lk, lt.replace("@N@", n)) for lk, lt in x[2]]) + tuple(x[3:]) for x in b] if isinstance(b, list) else b.replace("@N@", n))
+                         for a, b in kw.items()}
+                    k["decl"] = (otext % nm) + " " + k["decl"]
+                    return xmlgen.simple_model(**k)
+                cases.append((oname, iname, fresh, nm, Case("sh%d" % len(cases), [Step("parse_doc", 0, "xml_buffer", 1, 1, mk(nm)),
+                                                                                Step("parse_doc", 1, "xml_buffer", 1, 1, mk(fresh))], timeout=60)))
+    res = run_cases([c[-1] for c in cases])
+    for oname, iname, fresh, nm, c in cases:
+        r = res[c.id]
+        if r["status"] != "ok":
+            rep.crash(r, c)
+            continue
+        oa, ob = observation(r["steps"][0]), observation(r["steps"][1])
+        ob = json.loads(IDENT.sub(lambda mo: nm if mo.group() == fresh else mo.group(), json.dumps(ob)))
+        oa = json.loads(json.dumps(oa))
+        rep.observe(("shadow-rename", oname, iname, bool(oa["errors"])))
+        if oa["exc"] != ob["exc"] or oa["errors"] != ob["errors"] or oa["warnings"] != ob["warnings"]:
+            rep.violation("C09:shadow-rename:diagnostics-differ:%s" % oname.split("-")[0], "%s shadowed by %s: inner entity named like the outer one %s / %s, "
+                          "named freshly %s / %s" % (oname, iname, oa["exc"], oa["errors"][:2], ob["exc"], ob["errors"][:2]), c)
+        elif oa["methods"] != ob["methods"]:
+            rep.violation("C09:shadow-rename:supported-methods-differ", "%s shadowed by %s" % (oname, iname), c)
+        else:
+            d = deepdiff.first_diff(oa["doc"], ob["doc"])
+            if d:
+                rep.violation("C09:shadow-rename:document-differs:%s" % oname.split("-")[0], "%s shadowed by %s: at %s: %r vs %r" % (oname, iname, d[0], d[1], d[2]), c)
 
 
 def query_pass(rep, rng, quick):
